@@ -5,6 +5,10 @@ import json, sys
 ALL = ["C%02d" % i for i in range(1, 21)]
 
 CHECKS = {
+ "C01": dict(level="exploration", design="§3 C01, §0.1 E1",
+   technique="stateless choice-sequence exploration (E1): full product of a tiny grammar plus all documents within B deviations of the baseline over model and rendering choice points, each executed on the real reader/writer and judged against an independent reference codec",
+   text="Every (cue model, rendering) in the product and in the deviation ball is rendered, read by ReadFromSRT and compared on denotations; every representable model is written by WriteToSRT and decoded both by the library and by an independent decoder, plus a grammar check. Exhaustive within the bound; no sampling.",
+   note="Trusted: Go toolchain/stdlib, engine/ref/srt (renderer+decoder). Bound: B=2 quick / B=3 thorough deviations, <=2-3 cues/lines/runs, 18 text atoms, 13 instants."),
  "C09": dict(level="model_checking", design="§3 C09, §0.1 E3",
    technique="explicit-state search (BFS over canonical cue lists, every small list as initial state) with the real Add as transition function, compared with a reference model on every transition",
    text="Every list in the small scope x every shift is executed on the real code and compared with an 11-line executable specification (survivors, order, pointer identity, content, times, inverse law); chains of shifts explored breadth-first with state deduplication. Exhaustive within the stated grid; nothing is sampled.",
